@@ -85,7 +85,7 @@ Proof.
     rewrite <- (tensor_train_error_identity Op Rth svd T rank fs Hok Ett).
     assert (Hmid : Forall2 (fun G n => exists l r, shape G = [l; n; r]) fs (zip2 Nat.mul ins outs)).
     { unfold tensor_train in Ett. destruct (validate_tt_rank (ndim T) rank) as [rk|]; [|discriminate].
-      cbn [rbind] in Ett. exact (chain_loop_mid Op svd _ _ _ _ _ _ _ Ett). }
+      cbn [rbind] in Ett. destruct (ndim T <=? 1); [discriminate|]. exact (chain_loop_mid Op svd _ _ _ _ _ _ _ Ett). }
     assert (HsXt : shape Xt = inter ins outs).
     { unfold Xt, transpose. cbn [shape tabulate]. apply permute_interleave. exact Hord. }
     unfold tt_err2. change (shape T) with (zip2 Nat.mul ins outs).
